@@ -31,6 +31,8 @@ UGRID_VARIANTS = [
     dict(supplied={'face_edge', 'edge_node'}, coords_as_coords=True, fill='attr', start_index=0),
     dict(supplied={'edge_node', 'face_edge', 'edge_face', 'face_face'}, coords_as_coords=False, fill='attr', start_index=1),
     dict(supplied=set(), coords_as_coords=True, fill='nan', start_index=0),
+    # edges known only through face_edge / edge_face and a declared edge dimension (no edge_node table)
+    dict(supplied={'face_edge', 'edge_face'}, coords_as_coords=False, fill='attr', start_index=1, edge_dim_declared=True),
     dict(),
 ]
 
@@ -144,12 +146,12 @@ def flows(ctx, n_ds, quick):
             continue
         geoms = [g for g in geometries(rng, polys, 4) if g[0] != 'miss']
         rng.shuffle(geoms)
-        for tag, parts in geoms[:(1 if quick else 3)]:
+        for gi, (tag, parts) in enumerate(geoms[:((3 if fam == 'ugrid' else 2) if quick else 4)]):
             g = to_shapely(parts)
             shp = [None if p is None else __import__('shapely').Polygon(p) for p in polys]
             if not any(p is not None and p.intersects(g) for p in shp):
                 continue
-            buffer = rng.choice([0, 0, 1, 2])
+            buffer = 0 if gi == 0 else rng.choice([0, 1, 2])
             history = rng.choice(['direct', 'direct', 'saved_mask'])
             f = Flow()
             f.d, f.added, f.src, f.ds, f.polys, f.geom, f.tag, f.parts, f.buffer, f.history = d, added, src, ds, polys, g, tag, parts, buffer, history
